@@ -68,6 +68,8 @@ type C24Scn struct {
 	Init  OptSpec   `json:"init"`
 	Steps []C24Step `json:"steps"`
 	Sched SchedCfg  `json:"sched"`
+	Conc  bool      `json:"conc,omitempty"`  // a second client keeps reading while the updates run
+	Reads int       `json:"reads,omitempty"` // how many READs it issues
 }
 
 // tuningView extracts the numeric/duration fields the property speaks about.
@@ -140,6 +142,39 @@ func runC24(t *testing.T, scAny any, trace bool) *Outcome {
 				}
 			}
 		}
+		readerDone := make(chan int, 1)
+		if sc.Conc {
+			// concurrent class: while the administrator reconfigures, another client keeps reading; a READ
+			// that lands in the middle of an update is served like any other (at least one byte before EOF)
+			rc, err := w.Dial("10.0.0.8:901", RootCred, nil)
+			if err != nil {
+				o.Inconclusive = "dial"
+				return
+			}
+			defer rc.Close()
+			simrt.Go("c24-reader", func() {
+				defer simrt.Send("c24.reader.done", readerDone, 1)
+				lr, err := rc.Lookup(root, "f")
+				if err != nil || lr.Status != 0 {
+					return
+				}
+				for k := 0; k < sc.Reads; k++ {
+					simrt.Sleep(time.Duration(100+37*k) * time.Microsecond)
+					rr, err := rc.Read(lr.FH, uint64(k%7), 100)
+					if err != nil {
+						return
+					}
+					o.Tick()
+					if rr.Status == 0 && rr.Count == 0 {
+						o.Vio("C24.not-serviceable", "op=READ,during-update", "a READ of 100 bytes at offset %d of a 300-byte file issued while the configuration was being updated returned NFS3_OK with no data (transfer size reported now: %d)", k%7, w.NFS.GetExportOptions().TransferSize)
+						return
+					}
+				}
+			})
+		} else {
+			readerDone <- 0
+		}
+		defer func() { simrt.Recv("c24.reader.wait", readerDone) }()
 		curSquash := sc.Init.Squash
 		for i, st := range sc.Steps {
 			simrt.Sleep(time.Millisecond)
@@ -250,6 +285,10 @@ func genOpt(r *simrt.Rand) OptSpec {
 
 func genC24(r *simrt.Rand, tier string) any {
 	sc := &C24Scn{Init: genOpt(r), Sched: SeqSched(r.Uint64())}
+	if r.Pct(20) {
+		sc.Conc, sc.Reads, sc.Sched = true, 10+r.Int(30), RandSched(r)
+		sc.Sched.HorizonS = 3600
+	}
 	sc.Init.Squash = []string{"", "root", "none"}[r.Int(3)]
 	sc.Init.ReadOnly = false
 	n := 1 + r.Int(6)
@@ -280,7 +319,7 @@ func shrinkC24(scAny any) []any {
 
 func init() {
 	Register(&Prop{ID: "C24", Level: "exploration",
-		Rule: "one case = a server constructed from drawn options followed by 1-6 runtime updates (UpdateExportOptions, UpdateTuningOptions, UpdatePolicyOptions) whose numeric and duration fields are drawn from {zero, negative, small, normal}, Timeouts from {nil, all-zero, partial, full, negative} (in 20% of the structs every other scalar is positive, so that the time-outs or the rate-limit configuration are the only thing left to default), RateLimitConfig nil or set, Squash equal, changed, or the same mode in another letter case; after every update: GetExportOptions is compared field by field with what absnfs.New makes of the same option values (differential against construction, no default constants mirrored), every setting in force must be positive, a rejected update must leave GetExportOptions identical, a Squash change must be rejected, and a client on the simulated network must still get LOOKUP, READ (>=1 byte) and WRITE served; non-trivial = at least one update; distinct by event digest",
+		Rule: "one case = a server constructed from drawn options followed by 1-6 runtime updates (UpdateExportOptions, UpdateTuningOptions, UpdatePolicyOptions) whose numeric and duration fields are drawn from {zero, negative, small, normal}, Timeouts from {nil, all-zero, partial, full, negative} (in 20% of the structs every other scalar is positive, so that the time-outs or the rate-limit configuration are the only thing left to default), RateLimitConfig nil or set, Squash equal, changed, or the same mode in another letter case; after every update: GetExportOptions is compared field by field with what absnfs.New makes of the same option values (differential against construction, no default constants mirrored), every setting in force must be positive, a rejected update must leave GetExportOptions identical, a Squash change must be rejected, and a client on the simulated network must still get LOOKUP, READ (>=1 byte) and WRITE served; in 20% of the cases a second client keeps issuing READs under the seeded scheduler while the updates run - a READ that lands inside an update is served like any other; non-trivial = at least one update; distinct by event digest",
 		Gen:  genC24, New: func() any { return &C24Scn{} }, Run: runC24, Shrink: shrinkC24, Real: seqReal, Stubbed: seqStubbed})
 	_ = nfsclient.NFS3_OK
 }
